@@ -213,8 +213,12 @@ class RoundGen:
 
     def fresh_name(self, chain):
         rng = self.rng
+        big = self.cfg.get("marathon")
         for _ in range(20):
             n = rng.choice(NAMES)
+            if big and rng.random() < 0.5:
+                # environments of many nodes need more names than the palette has
+                n = rng.choice(["p", "q", "v", "node"]) + str(rng.randint(1, 99))
             p = ".".join(chain + [n])
             clash = p in self.g.nodes or any(q.startswith(p + ".") for q in self.g.nodes) or \
                 any(p.startswith(q + ".") for q in self.g.nodes)
@@ -543,6 +547,7 @@ class RoundGen:
         # condition first: it defines the good range the options are drawn from
         if rng.random() < cfg["p_condition"]:
             expr = None
+            earlier = None
             if typ in ("int", "float"):
                 c = v if isinstance(v, (int, float)) and not isinstance(v, bool) else 10
                 span = rng.choice([1, 5, 50]) if typ == "int" else rng.choice([0.5, 5.0, 100.0])
@@ -574,6 +579,14 @@ class RoundGen:
                     closed.append(lo)
                 if ops[1] == "<=":
                     closed.append(hi)
+                if rng.random() < 0.2:
+                    # an earlier, looser !condition on the same node (an alternative that holds
+                    # for every large value); the one emitted below comes second.  Whether a
+                    # later condition replaces the earlier one or adds to it, a value that
+                    # breaks the later one is refused, and one that satisfies both is accepted
+                    far = self.express(node, lo - span * 7, cu)[0] if cu not in (None, node["unit"]) \
+                        else lo - span * 7
+                    earlier = ["or", ["cmp", ops[0], llo, cu], ["cmp", "==", far, cu]]
                 if rng.random() < 0.25 and pal is None:
                     extra = hi + span * 4
                     lextra = self.express(node, extra, cu)[0] if cu not in (None, node["unit"]) \
@@ -609,7 +622,11 @@ class RoundGen:
                     elif gt is True:
                         expr = ["cmpnode", rng.choice([">", ">="]), op_]
             if expr is not None:
-                self.emit({"k": "condition", "indent": indent, "expr": expr})
+                if earlier is not None and expr[0] in ("and", "or"):
+                    self.emit({"k": "condition", "indent": indent, "expr": earlier})
+                    self.m.stats.probe("second_condition_on_a_node")
+                if not self.stopped:
+                    self.emit({"k": "condition", "indent": indent, "expr": expr})
         if self.stopped:
             return
         if typ in ("int", "float") and v is not None and not isinstance(v, list) \
@@ -1463,7 +1480,7 @@ class DipStoreMachine(Machine):
             op = self._gen_file(rng)
             if op:
                 return op
-        if self.nround >= cfg["max_rounds"]:
+        if self.nround >= cfg["max_rounds"] * (4 if cfg.get("marathon") else 1):
             return None
         return self._gen_round(rng)
 
@@ -1523,8 +1540,14 @@ class DipStoreMachine(Machine):
         if cfg["faults"] and rng.random() < cfg["p_fault"]:
             fault = rng.choice(cfg["faults"])
         nst = rng.randint(1, cfg["max_stmts"])
-        fault_at = rng.randrange(nst) if fault else -1
         w = dict(cfg["weights"])
+        if cfg.get("marathon") and rng.random() < 0.5:
+            # a long text that mostly defines: environments of dozens of nodes (size boundaries
+            # of whatever the library keeps per environment)
+            nst = rng.randint(cfg["max_stmts"], cfg["max_stmts"] * 3 + 30)
+            w["def"] = w["def"] * 3
+            self.stats.probe("long_text")
+        fault_at = rng.randrange(nst) if fault else -1
         kinds = sorted(w)
         i = 0
         guard = 0
@@ -1601,6 +1624,11 @@ class DipStoreMachine(Machine):
         if rng.random() < 0.15:
             # the parser is used as a context manager and asked to parse after its block
             op["with_block"] = True
+        if base >= 0 and rng.random() < 0.1:
+            # a documentation build runs over the base environment first
+            # (DIP(base, docs=True).parse_docs()); the base is what it was, and the parse that
+            # follows is judged like any other
+            op["docs_first"] = True
         if cfg["io_faults"] and rng.random() < 0.3:
             read = [c["path"] for c in out if c["via"] == "file"] + \
                 [st["path"] for st in stmts if st["k"] == "source"]
@@ -1611,6 +1639,33 @@ class DipStoreMachine(Machine):
                 if op["io_fault"]["kind"] == "torn":
                     # the reader sees a prefix cut at an arbitrary character
                     op["io_fault"]["permille"] = rng.randint(1, 999)
+        if cfg["prop"] in ("C16", "C09") and not op["fault"] and not op["io_fault"] \
+                and rng.random() < 0.06:
+            # a settings file read *before* the text that defines its nodes (add_file, then
+            # add_string): whether such an order is accepted is not stated anywhere - but if an
+            # environment comes back, its values satisfy the constraints of their definitions
+            new = [(p_, n_) for p_, n_ in gen.g.nodes.items()
+                   if (base < 0 or p_ not in self.envs[base]["model"].nodes)
+                   and not isinstance(n_["value"], list) and n_["value"] is not None
+                   and n_["type"] in ("int", "float", "str") and not n_.get("imported")]
+            if len(new) >= 2:
+                picked = rng.sample(new, rng.randint(2, min(4, len(new))))
+                mods = []
+                for p_, n_ in picked:
+                    if n_["type"] == "str":
+                        val = rng.choice(["zzz", "Qq", "none of these"])
+                    elif n_["type"] == "int":
+                        val = int(n_["value"]) * 9 + rng.choice([1234, -977])
+                    else:
+                        val = float(f"{float(n_['value']) * 9.5 + rng.choice([1234.5, -977.25]):.6g}")
+                    if n_.get("unsigned"):
+                        val = abs(val)
+                    mods.append({"k": "mod", "indent": 0, "name": p_, "value": val,
+                                 "unit": n_["unit"] if n_["type"] != "str" else None})
+                spath = f"{ROOT}settings_{self.nround + 1}.dip"
+                file_ops.insert(0, {"op": "write_file", "path": spath, "kind": "dip", "stmts": mods})
+                op["chunks"] = [{"via": "file", "path": spath}] + op["chunks"]
+                op["settings_first"] = True
         if file_ops:
             self.queue = file_ops[1:] + [op]
             return file_ops[0]
@@ -1807,8 +1862,13 @@ class DipStoreMachine(Machine):
             if io:
                 files_view = dict(self.files)
                 files_view.pop(io["path"], None)     # any $source read of it fails
-            DM.run_statements(model, all_stmts, files_view)
+            model_stmts = all_stmts
+            if op.get("settings_first") and chunks and chunks[0][0]["via"] == "file":
+                model_stmts = all_stmts[len(chunks[0][1]):]
+            DM.run_statements(model, model_stmts, files_view)
             model.validate()
+            if op.get("settings_first"):
+                raise DM.Unspecified("a settings file read before the definitions of its nodes")
         except DM.Abort as a:
             expected, why, eprop = "abort", a.why, a.prop
             if io and a.why.startswith(("source file does not exist", "I/O fault")):
@@ -1830,6 +1890,16 @@ class DipStoreMachine(Machine):
         self.fs.fired = []
         files_before = self.fs.snapshot()
         got, env, err = "commit", None, None
+        if op.get("docs_first") and base:
+            try:
+                d = DIP(base["env"], name=name + "docs", docs=True)
+                # (a fixed small text: parse_docs() is no subject of these properties, and on
+                # arbitrary generated text the pinned code may loop forever in it)
+                d.add_string("docsprobe float = 1 m\n  !description 'a probe'\ndocsflag bool = true")
+                d.parse_docs()
+                self.stats.fault("documentation_built_over_the_base_first", True)
+            except Exception:
+                self.stats.fault("documentation_built_over_the_base_first", False)
         try:
             p = DIP(base["env"], name=name) if base else DIP(name=name)
             if op.get("with_block"):
@@ -1923,6 +1993,15 @@ class DipStoreMachine(Machine):
         if expected == "abort":
             return "aborted", [why, type(err).__name__]
         if expected == "unspecified":
+            if op.get("settings_first") and got == "commit" and why.startswith("a settings file"):
+                # accepted after all: the constraints written with the definitions hold
+                self.stats.probe("settings_first_accepted")
+                try:
+                    data = env.data(format=Format.TUPLE)
+                except Exception:
+                    data = None
+                if data is not None:
+                    self._revalidate(data, model, detail_base)
             return "unspecified", why
         # ---- oracle 1: must commit, with the model's content
         if got == "abort" and model.may_abort:
@@ -2068,6 +2147,10 @@ class DipStoreMachine(Machine):
                 yield dict(op, prelude=None)
             if op.get("with_block"):
                 yield dict(op, with_block=False)
+            if op.get("docs_first"):
+                yield dict(op, docs_first=False)
+            if op.get("settings_first") and len(ch) > 1:
+                yield dict(op, settings_first=False, chunks=ch[1:])
             if op.get("base", -1) >= 0:
                 yield dict(op, base=-1)
             for ci, c in enumerate(ch):
